@@ -76,7 +76,7 @@ def parse_programs(out):
 
 def run_gen(name, menu, reps=(('fixed', 1),), configs=(DEFAULT_CFG,), acts=('NewCircuit', 'AddOp', 'Obs'),
             linktypes=('FB', 'JS', 'JE'), max_circs=1, max_objs=5, max_steps=5, simulate=None, depth=None,
-            workers=1, seed=1, cap=None, base='CircuitGen', invariants=('EmitProgram',), properties=(), timeout=240, view=None, min_emit=2, one_in=1, deep=False, anchors=None, max_non_anchor=99, init_defs='', obskinds=('full',), masks=()):
+            workers=1, seed=1, cap=None, base='CircuitGen', invariants=('EmitProgram',), properties=(), timeout=1500, view=None, min_emit=2, one_in=1, deep=False, anchors=None, max_non_anchor=99, init_defs='', obskinds=('full',), masks=()):
     mod = 'MCGen_' + name
     extra = ['-seed', str(seed)]
     res = run_tlc(mod, cfg_text(max_circs, max_objs, max_steps, invariants, properties, view, min_emit, one_in, deep, max_non_anchor, bool(init_defs)), workers=workers,
